@@ -57,6 +57,14 @@ type Cluster struct {
 	streams  []*ReplStream
 	SegSize  int32
 	Notif    bool
+	// LastTruncate is the last Truncate request a leader sent to each follower (for re-delivery by the harness)
+	LastTruncate map[string]*proto.TruncateRequest
+}
+
+func (c *Cluster) LastTruncateTo(follower string) *proto.TruncateRequest {
+	c.mu.Lock()
+	defer c.mu.Unlock()
+	return c.LastTruncate[follower]
 }
 
 type Node struct {
@@ -520,6 +528,12 @@ func (p *provider) Truncate(follower string, req *proto.TruncateRequest) (*proto
 	if target == nil || target.Down() {
 		return nil, status.Error(14, "harness: peer unreachable")
 	}
+	p.n.c.mu.Lock()
+	if p.n.c.LastTruncate == nil {
+		p.n.c.LastTruncate = map[string]*proto.TruncateRequest{}
+	}
+	p.n.c.LastTruncate[follower] = req.CloneVT()
+	p.n.c.mu.Unlock()
 	return target.Truncate(req)
 }
 
